@@ -524,14 +524,14 @@ equivalent("c17-eq-pop-rule-demorgan", ["C17", "C06"], (T, """                  
                     queue.append(stack.pop())"""))
 
 # ------------------------------------------------------------------------------------------ C16 / C06 automata
-mutant("c16-regress-stack-flag", "C16", (R, "            if state & (s_hedge | s_term):\n                raise SyntaxError(f\"expected hedge or term, but found '{token}'\")\n\n        if len(stack) != 1:", "            if stack & (s_hedge | s_term):\n                raise SyntaxError(f\"expected hedge or term, but found '{token}'\")\n\n        if len(stack) != 1:"), "F-end/Antecedent.load")
+mutant("c16-regress-stack-flag", "C16", (R, "            if state & (s_hedge | s_term):\n                raise SyntaxError(f\"expected hedge or term, but found '{token}'\")\n\n        if len(stack) != 1:", "            if stack & (s_hedge | s_term):\n                raise SyntaxError(f\"expected hedge or term, but found '{token}'\")\n\n        if len(stack) != 1:"), "LD/Antecedent.load")
 mutant("c16-consequent-end-raise-deleted", "C16", (R, """            if state & s_is:
                 raise SyntaxError(f"consequent expected keyword '{Rule.IS}' after '{token}'")
             if state & (s_hedge | s_term):
                 raise SyntaxError(f"consequent expected hedge or term after '{token}' ")
 """, """            if state & s_is:
                 raise SyntaxError(f"consequent expected keyword '{Rule.IS}' after '{token}'")
-"""), "F-end/Consequent.load")
+"""), "LD/Consequent.load")
 mutant("c16-after-is-accepts-variable", ["C16", "C06"], (R, """                if Rule.IS == token:
                     state = s_hedge | s_term
                     settings.logger.debug(f"token '{token}' is a keyword")""", """                if Rule.IS == token:
@@ -568,7 +568,7 @@ mutant("c16-consequent-and-after-hedge", "C16", (R, """            if state & s_
                 state = s_variable
                 continue""", """            if Rule.AND == token:
                 state = s_variable
-                continue"""), "F1/Consequent.load")
+                continue"""), "LD/Consequent.load")
 mutant("c16-consequent-conclusions-appended-early", "C16", (R, """                    proposition = Proposition(variable)
                     conclusions.append(proposition)
                     state = s_is
@@ -584,12 +584,12 @@ mutant("c16-consequent-conclusions-appended-early", "C16", (R, """              
 mutant("c16-term-values-unguarded", "C16", (I, """        if len(values) < 2:
             raise SyntaxError(f"expected format 'term: name Term [parameters]', but got '{fll}'")
 """, ""), "X4/FllImporter.term")
-mutant("c16-any-keeps-expecting-term", ["C16", "C06"], (R, "state = s_variable | s_and_or if isinstance(hedge, Any) else s_hedge | s_term", "state = s_hedge | s_term"), "F1/Antecedent.load")
+mutant("c16-any-keeps-expecting-term", ["C16", "C06"], (R, "state = s_variable | s_and_or if isinstance(hedge, Any) else s_hedge | s_term", "state = s_hedge | s_term"), "LD/Antecedent.load")
 mutant("c16-hedge-before-is", ["C16", "C06"], (R, """                    proposition = Proposition(variable)
                     stack.append(proposition)
                     state = s_is""", """                    proposition = Proposition(variable)
                     stack.append(proposition)
-                    state = s_is | s_hedge"""), "F1/Antecedent.load")
+                    state = s_is | s_hedge"""), "LD/Antecedent.load")
 mutant("c16-proposition-none-deref", "C16", (R, """        s_variable, s_is, s_hedge, s_term, s_and_or = (2**i for i in range(5))
         state = s_variable
 """, """        s_variable, s_is, s_hedge, s_term, s_and_or = (2**i for i in range(5))
